@@ -36,10 +36,15 @@ import (
 	"time"
 
 	sqlite3 "github.com/mattn/go-sqlite3"
+
+	"raven/internal/db"
 )
 
 const (
-	sqliteInsert = 18
+	sqliteCreateIndex = 1
+	sqliteCreateTable = 2
+	sqliteTransaction = 22
+	sqliteInsert      = 18
 	sqliteRead   = 20
 	sqliteSelect = 21
 	sqliteUpdate = 23
@@ -105,6 +110,19 @@ func authorizerFor() func(int, string, string, string) int {
 	kind := 0
 	return func(op int, a1, a2, a3 string) int {
 		switch op {
+		case sqliteCreateIndex, sqliteCreateTable:
+			kind = op
+			gate.arrive("T") // schema statement that really creates something
+		case sqliteTransaction:
+			kind = op
+			switch a1 {
+			case "BEGIN":
+				gate.arrive("B")
+			case "COMMIT":
+				gate.arrive("X")
+			case "ROLLBACK":
+				gate.arrive("Y")
+			}
 		case sqliteSelect:
 			kind = sqliteSelect
 		case sqliteUpdate:
@@ -477,6 +495,130 @@ func opBarrier(w *World, op Op) Obs {
 	return res
 }
 
+// role_create_cold: a role mailbox row in the shared database WITHOUT opening
+// its store (role_create of dump.go opens it), so that the first open of
+// role_db_<id>.db is left to the sessions under test.
+func opRoleCreateCold(w *World, op Op) Obs {
+	shared := w.mgr.GetSharedDB()
+	email := op.str("email")
+	dom := email
+	if i := strings.LastIndex(email, "@"); i >= 0 {
+		dom = email[i+1:]
+	}
+	did, err := db.GetOrCreateDomain(shared, dom)
+	if err != nil {
+		return Obs{"error": err.Error()}
+	}
+	id, err := db.CreateRoleMailbox(shared, email, did, "verif")
+	if err != nil {
+		return Obs{"error": err.Error()}
+	}
+	return Obs{"id": id}
+}
+
+// hold_run: statement-level "peer in the middle" schedules.
+//   1. the HOLDER session runs alone; its arrivals at the gate points are
+//      counted and released until the hold_at-th one, where it is held (its
+//      connection keeps whatever SQLite lock it has at that statement);
+//   2. the gates are switched off and the PEER session runs: it finishes, or
+//      it is blocked by the holder's lock (peer_wait_ms);
+//   3. the holder is released; both run to their replies.
+// {"op":"hold_run","points":[..],"hold_at":k,"peer_wait_ms":600,"holder":{conn,steps},"peer":{conn,steps}}
+func opHoldRun(w *World, op Op) Obs {
+	spec := func(k string) (string, []map[string]interface{}) {
+		m, _ := op[k].(map[string]interface{})
+		c, _ := m["conn"].(string)
+		return c, stepsOf(m)
+	}
+	hconn, hsteps := spec("holder")
+	pconn, psteps := spec("peer")
+	holdAt := op.num("hold_at", 0)
+	// alternatively: hold before the (offset+1)-th gated statement counted from
+	// the first one of kind from_point
+	fromPoint, offset := op.str("from_point"), op.num("offset", 0)
+	timeout := time.Duration(op.num("timeout_ms", 20000)) * time.Millisecond
+	gate.mu.Lock()
+	gate.active = true
+	gate.points = map[string]bool{}
+	for _, p := range op.strs("points") {
+		gate.points[p] = true
+	}
+	gate.mu.Unlock()
+	run := func(conn string, steps []map[string]interface{}) chan []stepRes {
+		ch := make(chan []stepRes, 1)
+		go func() {
+			var rs []stepRes
+			for _, st := range steps {
+				rs = append(rs, runStep(w, conn, st))
+			}
+			ch <- rs
+		}()
+		return ch
+	}
+	var trace []string
+	var held *gateArrival
+	var hres, pres []stepRes
+	errText := ""
+	hdone := run(hconn, hsteps)
+	deadline := time.After(timeout)
+phase1:
+	for {
+		select {
+		case a := <-gate.arrivals:
+			trace = append(trace, a.point)
+			if fromPoint != "" && holdAt == 0 && a.point == fromPoint {
+				holdAt = len(trace) + offset
+			}
+			if len(trace) == holdAt {
+				held = a
+				break phase1
+			}
+			close(a.release)
+		case hres = <-hdone:
+			hdone = nil
+			break phase1
+		case <-deadline:
+			errText = "holder neither reached the hold point nor replied"
+			break phase1
+		}
+	}
+	gate.mu.Lock()
+	gate.active = false
+	gate.mu.Unlock()
+	peerEarly := false
+	var pdone chan []stepRes
+	if errText == "" {
+		pdone = run(pconn, psteps)
+		select {
+		case pres = <-pdone:
+			pdone = nil
+			peerEarly = true
+		case <-time.After(time.Duration(op.num("peer_wait_ms", 600)) * time.Millisecond):
+		}
+	}
+	if held != nil {
+		close(held.release)
+	}
+	end := time.After(timeout)
+	for (hdone != nil || pdone != nil) && errText == "" {
+		select {
+		case a := <-gate.arrivals:
+			close(a.release)
+		case hres = <-hdone:
+			hdone = nil
+		case pres = <-pdone:
+			pdone = nil
+		case <-end:
+			errText = "a session did not reply after the holder was released"
+		}
+	}
+	o := Obs{"holder": hres, "peer": pres, "trace": trace, "held": held != nil, "peer_done_before_release": peerEarly}
+	if errText != "" {
+		o["error"] = errText
+	}
+	return o
+}
+
 // sql_exec: preparation of a scenario only (never part of what is judged):
 // run one writing statement on a store file through a private connection.
 func opSQLExec(w *World, op Op) Obs {
@@ -493,6 +635,8 @@ func opSQLExec(w *World, op Op) Obs {
 
 func init() {
 	register("sql_exec", opSQLExec)
+	register("role_create_cold", opRoleCreateCold)
+	register("hold_run", opHoldRun)
 	register("hook_all", opHookAll)
 	register("gate_install_shared", opGateInstallShared)
 	register("barrier", opBarrier)
